@@ -443,6 +443,7 @@ func instJump(interp *Interpreter, pc ProgramCounter, skipLength ProgramCounter)
 	}
 
 	reason, newPC := branch(pc, vX, true, interp.Program.Bitmasks, interp.Program.InstructionData)
+	interp.jumped = reason == ExitContinue
 
 	if reason != ExitContinue {
 		return reason, pc
@@ -461,6 +462,7 @@ func instJumpInd(interp *Interpreter, pc ProgramCounter, skipLength ProgramCount
 
 	dest := uint32(interp.Registers[rA] + vX)
 	reason, newPC := djump(pc, dest, interp.Program.JumpTable, interp.Program.Bitmasks)
+	interp.jumped = reason == ExitContinue
 	switch reason {
 	case ExitPanic:
 
@@ -777,6 +779,7 @@ func instImmediateBranch(interp *Interpreter, pc ProgramCounter, skipLength Prog
 	}
 
 	reason, newPC := branch(pc, vY, branchCondition, interp.Program.Bitmasks, interp.Program.InstructionData)
+	interp.jumped = reason == ExitContinue && branchCondition
 	if reason != ExitContinue {
 		return reason, pc
 	}
@@ -1660,6 +1663,7 @@ func instBranch(interp *Interpreter, pc ProgramCounter, skipLength ProgramCounte
 	}
 
 	reason, newPC := branch(pc, vX, branchCondition, interp.Program.Bitmasks, interp.Program.InstructionData)
+	interp.jumped = reason == ExitContinue && branchCondition
 	if reason != ExitContinue {
 		pvmLogger.Errorf("instBranch branch error at pc: %d, opcode: %s", pc, zeta[opcode(interp.Program.InstructionData[pc])])
 		return ExitReason(reason), pc
@@ -1679,6 +1683,7 @@ func instLoadImmJumpInd(interp *Interpreter, pc ProgramCounter, skipLength Progr
 	// the register update should take place even if the jump panics
 	dest := uint32(interp.Registers[rB] + vY)
 	reason, newPC := djump(pc, dest, interp.Program.JumpTable, interp.Program.Bitmasks)
+	interp.jumped = reason == ExitContinue
 
 	interp.Registers[rA] = vX
 	switch reason {
